@@ -26,6 +26,26 @@ PROPS["C02"] = {
     "assumptions": ["targets of both generations always healthy and faster than the drain timeout", "go1.26.8 synctest"],
 }
 
+PROPS["C03"] = {
+    "test": "TestC03", "level": "exploration", "registered": True, "engine": "sim",
+    "shards_quick": 8, "shards_thorough": 16, "timeout": 900,
+    "technique": "runtime monitor over target-side open/close logs, client outcomes and command return instants in virtual time; hook-placed late arrivals",
+    "level_text": "Generated in-flight sets (early, late, never finishing, at the deadline, upgraded) x drain timeouts x commands are run against the real router in virtual time; the oracle reads the fake targets' own request logs (received/ended) against the exact return instant of the command, the clients' status and completion instants against the drain deadline, and the close instant of upgraded connections. Late arrivals are placed into every gap of the command with hook delays.",
+    "level_note": "Trusted: synctest clock, fake-target logs (a target notices the proxy closing its connection at that virtual instant). Exact-time clauses use eps=100ms and are judged only in scenarios without injected delays; finishes within one step of the deadline are ties.",
+    "rule": "a class is (command, n targets, rollout present, drain timeout, multiset of in-flight kinds, placed?); non-trivial = non-empty in-flight set or placed late arrivals",
+    "assumptions": ["targets healthy", "go1.26.8 synctest"],
+}
+
+PROPS["C07"] = {
+    "test": "TestC07", "level": "exploration", "registered": True, "engine": "sim",
+    "shards_quick": 8, "shards_thorough": 16, "timeout": 900,
+    "technique": "runtime monitor: per-service timeline model (state, max-pause, generation, split) judges every request's outcome and exact virtual completion instant",
+    "level_text": "Random command histories (pause, repeated pause, resume, stop, redeploy, rollout deploy/set/stop at lattice instants) with 1-30 requests arriving anywhere are executed in virtual time; a timeline model built from the command log gives, per request, the set of allowed outcomes (forwarded at the resume instant to the side/generation current then, 503+message at the stop instant, 504 at arrival+max-pause, 200 by the proxy for health-path GETs) and the request as received by the target is compared with what was sent. Requests placed in the gate/claim window of a pause must not be refused.",
+    "level_note": "Trusted: synctest clock, timeline model (written from the statement), eps=100ms; timer expiry within 2 eps of a release instant is a tie; for requests already held when pause is repeated either max-pause is accepted.",
+    "rule": "a class is (n targets, sequence of command kinds, set of outcome kinds observed, placed?); non-trivial = at least one request was held longer than eps or was placed in a gate/claim window",
+    "assumptions": ["targets healthy and instantaneous, so commands take no virtual time", "go1.26.8 synctest"],
+}
+
 ENGINES = [
     {"name": "sim", "path": "/verif/harness (world_test.go)", "kind_free_text": "real internal/server code in a testing/synctest bubble (virtual time) on an in-memory network with scripted fake targets and hook-placed delays; monitors judge recorded events", "serves_properties": []},
 ]
